@@ -1,11 +1,15 @@
 import ExoVerif.Driver.Common
 import ExoVerif.Model.EvmFee
+import ExoVerif.Model.EvmBatch
 /- driver for the C19 correspondence.
    ops:  evm.reset
          evm.env <baseFee> <blockGasLimit> <minGasMultRaw> <minGasPriceRaw> <collector>   (new block: block gas meter = 0)
          evm.set <id> <balance> <nonce>
          evm.tx <ty> <sender> <recipient> <nonce> <gasLimit> <feeCap> <tipCap> <value> <sigOk> <intrinsic> <evmGasUsed> <failed> <rejGas>
-   obs of evm.tx:  <outcome> g=<gas> n=<nonce of sender> b=<balances of all known ids in order of first `evm.set`> -/
+         evm.batch <rejGas> <k> then k x (<ty> <sender> <recipient> <nonce> <gasLimit> <feeCap> <tipCap> <value> <sigOk> <intrinsic>
+                   <evmGasUsed> <failed> <isCreate>)        one cosmos tx carrying k MsgEthereumTx (Model/EvmBatch.lean)
+   obs of evm.tx:  <outcome> g=<gas> n=<nonce of sender> b=<balances of all known ids in order of first `evm.set`>
+   obs of evm.batch: <outcome> rg=<gas figure of the tx> g=<gas per message> f=<failed per message> n=<nonces of the senders, in order of first appearance> b=<balances> -/
 namespace ExoVerif.Driver.EvmFee
 open ExoVerif ExoVerif.EvmFee ExoVerif.Driver
 
@@ -24,6 +28,24 @@ def showOutcome : Outcome → String
   | .blockGas => "blockgas"
   | .executed false => "ok"
   | .executed true => "vmfail"
+
+def parseMsgs : List String → List Msg
+  | ty :: s :: r :: n :: gl :: fc :: tc :: v :: sg :: intr :: eg :: fl :: cr :: rest =>
+    { t := { ty := parseNat! ty, sender := parseNat! s, recipient := parseNat! r, nonce := parseInt! n,
+             gasLimit := parseInt! gl, feeCap := parseInt! fc, tipCap := parseInt! tc, value := parseInt! v,
+             sigOk := sg == "1", intrinsic := parseInt! intr },
+      x := { evmGasUsed := parseInt! eg, failed := fl == "1" }, isCreate := cr == "1" } :: parseMsgs rest
+  | _ => []
+
+def showBatchOutcome : BatchOutcome → String
+  | .rejected => "rej"
+  | .applyErr => "apperr"
+  | .blockGas => "blockgas"
+  | .executed _ => "ok"
+
+def batchFlags : BatchOutcome → List Bool
+  | .executed l => l
+  | _ => []
 
 def step (d : DS) (w : List String) : DS × String :=
   match w with
@@ -54,6 +76,20 @@ def step (d : DS) (w : List String) : DS × String :=
                        blockGas := st'.blockGas }
     ({ d with st := st'' },
       s!"{showOutcome res.2.1} g={res.2.2} n={st'.nonce t.sender} b=" ++ joinWith "," (d.ids.map (fun i => toString (st'.bal i))))
+  | "evm.batch" :: rg :: k :: rest =>
+    let ms := parseMsgs rest
+    if ms.length != parseNat! k then (d, "bad-op") else
+    let res := deliverBatch d.env d.st ms (parseInt! rg)
+    let st' := res.1
+    let bs := d.ids.map (fun i => (i, st'.bal i, st'.nonce i))
+    let st'' : St := { bal := fun a => ((bs.find? (fun p => p.1 == a)).map (fun p => p.2.1)).getD 0,
+                       nonce := fun a => ((bs.find? (fun p => p.1 == a)).map (fun p => p.2.2)).getD 0,
+                       blockGas := st'.blockGas }
+    ({ d with st := st'' },
+      s!"{showBatchOutcome res.2.1} rg={res.2.2.2} g=" ++ joinWith ";" (res.2.2.1.map toString) ++
+      " f=" ++ joinWith ";" ((batchFlags res.2.1).map (fun b => if b then "1" else "0")) ++
+      " n=" ++ joinWith "," ((ms.map (fun m => m.t.sender)).eraseDups.map (fun i => toString (st'.nonce i))) ++
+      " b=" ++ joinWith "," (bs.map (fun p => toString p.2.1)))
   | _ => (d, "bad-op")
 
 def main : IO Unit := runDriver init step
